@@ -182,6 +182,11 @@ func genClasses(r *RNG, n int, prefix string) []*GClass {
 			}
 			ks := Pick(r, [][2]string{{"mode", "mode2"}, {"size10", "size"}, {"pin", "pin2"}})
 			c.Methods = append(c.Methods, &GMethod{Name: "kw2", Params: []GParam{{Types: []string{t1}, Key: ks[0]}, {Types: []string{t2}, Key: ks[1]}}, Ret: []string{Pick(r, gScalarTypes)}})
+			// and one method declared twice, first without parameters, then with
+			// one: `x.ov0 v` without parentheses has an argument
+			c.Methods = append(c.Methods,
+				&GMethod{Name: "ov0", Ret: []string{t1}},
+				&GMethod{Name: "ov0", Params: []GParam{{Types: []string{Pick(r, gScalarTypes)}}}, Ret: []string{t2}})
 		}
 		out = append(out, c)
 	}
